@@ -1,6 +1,7 @@
 // C06 harness: Circuit::placeGlobal (with a recording callback), GlobalPlacer internals, DensityGrid::fromIspdCircuit
 // and HierarchicalDensityPlacement::spreadCoordX/Y from /repo's working tree
 //   global gen gp SEED COUNT LEVEL      LEVEL 0 = quick (small circuits, efforts 1-3), 1 = thorough (larger, efforts 1-9)
+//   global gen gpn SEED COUNT LEVEL     circuits whose rows are all covered by fixed obstructions (no free capacity: finding F28)
 //   global gen gpc SEED COUNT           circuits with EXACT coincidences (floating groups with centred pins, nets whose pins all
 //                                       coincide, stacked twin cells, no fixed pin at all), all four net models
 //   global gen spread SEED COUNT        dyadic spreading cases (every float operation of spreadCells is exact)
@@ -34,6 +35,7 @@
 #include "place_global/place_global.hpp"
 #undef private
 #undef protected
+#include <climits>
 #include "cgen.hpp"
 
 static std::string fme(float f) {   // exact: value = m * 2^e (m odd or 0)
@@ -146,6 +148,30 @@ static std::string drawParams(SplitMix &g, int level, int forceNetModel = -1) {
 static void genGP(SplitMix &g, long long count, int level) {
   for (long long it = 0; it < count; ++it) {
     TCircuit t = genGlobalCircuit(g, level);
+    printf("GP %s %s %s\n", showRowsCells(t).c_str(), showNets(t).c_str(), drawParams(g, level).c_str());
+  }
+}
+
+// circuits WITHOUT free capacity (finding F28): every row is covered by fixed obstructions -- one macro over everything, or one
+// obstruction per row that leaves at most a sliver of one unit at an end (removed by the side margin). The placement area of the
+// density grid then has no region left; the cells must stay inside the rows' bounding box all the same.
+static void genGPN(SplitMix &g, long long count, int level) {
+  for (long long it = 0; it < count; ++it) {
+    TCircuit t = genGlobalCircuit(g, level);
+    long long minX = LLONG_MAX, maxX = LLONG_MIN, minY = LLONG_MAX, maxY = LLONG_MIN;
+    for (auto &r : t.rows) { minX = std::min(minX, r[0]); maxX = std::max(maxX, r[1]); minY = std::min(minY, r[2]); maxY = std::max(maxY, r[3]); }
+    int kind = (int)g.uni(0, 2);
+    if (kind == 0) {
+      std::array<long long, 8> c{}; long long ex = g.uni(0, 3);
+      c[0] = minX - ex; c[1] = minY - ex; c[2] = maxX - minX + 2 * ex; c[3] = maxY - minY + 2 * ex; c[4] = 0; c[6] = 1; c[7] = 1;
+      t.cells.push_back(c);
+    } else {
+      for (auto &r : t.rows) {
+        std::array<long long, 8> c{}; long long l = kind == 2 ? g.uni(0, 1) : 0, rr = kind == 2 ? g.uni(0, 1) : 0;
+        c[0] = r[0] + l; c[1] = r[2]; c[2] = r[1] - r[0] - l - rr; c[3] = r[3] - r[2]; c[4] = 0; c[6] = 1; c[7] = 1;
+        t.cells.push_back(c);
+      }
+    }
     printf("GP %s %s %s\n", showRowsCells(t).c_str(), showNets(t).c_str(), drawParams(g, level).c_str());
   }
 }
@@ -534,6 +560,7 @@ int main(int argc, char **argv) {
     std::string what = argv[2]; SplitMix g(strtoull(argv[3], nullptr, 10)); long long count = atoll(argv[4]);
     if (what == "gp") genGP(g, count, argc > 5 ? atoi(argv[5]) : 0);
     else if (what == "gpc") genGPC(g, count);
+    else if (what == "gpn") genGPN(g, count, argc > 5 ? atoi(argv[5]) : 0);
     else if (what == "grid") genGR(g, count);
     else if (what == "spread") genSP(g, count);
     else if (what == "spreadf") genSF(g, count);
